@@ -12,7 +12,7 @@ res="$name prop=$prop"
 (cd "$wt" && timeout 300 /venv/bin/python "$demo" >/dev/null 2>&1); res="$res demo_clean=$?"
 if ! git -C "$wt" apply "$diff" 2>/tmp/seedwt/$name.applyerr; then echo "$res APPLY-FAILED: $(head -3 /tmp/seedwt/$name.applyerr)"; exit 3; fi
 if [ -z "$SKIP_BASELINE" ]; then
-  flock /tmp/jsonrpclib-tests.lock /verif/tools/baseline.sh "$wt" >/tmp/seedwt/$name.baseline 2>&1; res="$res baseline=$?"
+  flock /tmp/jsonrpclib-tests.lock timeout 420 /verif/tools/baseline.sh "$wt" >/tmp/seedwt/$name.baseline 2>&1; res="$res baseline=$?"
 fi
 (cd "$wt" && timeout 300 /venv/bin/python "$demo" >/dev/null 2>&1); res="$res demo_seeded=$?"
 for p in $prop; do
